@@ -34,6 +34,7 @@ def templates(tier, seed=0):
     from . import objects as _objects
     ts += [dict(x) for x in _objects.templates(tier, seed) if x['name'] == 'special-keys']
     ts.append({'name': 'empty-strings', 'src': 'print(["a", "", "b"])\nprint({"k": [[""]], "e": ""})\nprint([""])\nprint([[], "", {}])\nprint("")\nprint(@h10@)\n'})
+    ts.append({'name': 'bracket-strings', 'src': 'print([["}"], 1])\nprint(["]", ["[", "{"], "},", "],"])\nprint({"k": ["}", {"j": "]"}], "m": "{"})\nprint(["["])\nprint(@h10@)\n'})
     ts.append({'name': 'raw-strings', 'src': 'print("q\\"q \\\\ b")\nprint(["q\\"q", "a\\\\b", "t\\x09t", "\u00e9\u20ac", "c\\x7fd", "r\\x0dr", "$\\$"])\nprint({"k": "v\\"v\\\\"})\nprint(@h10@)\n'})
     # large outputs: a string longer than the usual stream buffers, with and without line breaks inside, alone and inside a container
     ts.append({'name': 'large-output', 'src': 's := "x"\ni := 0\nwhile i < 11 {\n    s = s + s\n    i += 1\n}\nprint(s->len())\nprint("head\\n" + s)\nprint(s + "\\n" + s + "\\ntail")\nprint([s[:1030], @h10@])\nprint(s)\nprint("end")\n'})
